@@ -95,3 +95,45 @@ def replay_file(path, repo):
         return r.returncode
     print('unknown replay kind')
     return 2
+
+
+def cross_check(assertions, expect, timeout_s=120, solvers=('z3-new', 'cvc5')):
+    """Second opinion on one query: the assertions are written as SMT-LIB2 text and handed to other solver binaries.
+    Returns {'expect': .., 'results': {solver: 'sat'|'unsat'|'unknown'|'timeout'|'error: ..'}, 'agree': bool or None}.
+    agree is False only when another solver gives the opposite definite answer; timeouts/unknowns leave it None."""
+    import subprocess
+    import tempfile
+    import z3
+    s2 = z3.Solver()
+    s2.add(*assertions)
+    txt = '(set-logic ALL)\n' + s2.to_smt2()
+    f = tempfile.NamedTemporaryFile('w', suffix='.smt2', delete=False, dir=os.environ.get('VERIF_SCRATCH', '/var/tmp'))
+    f.write(txt)
+    f.close()
+    res = {}
+    try:
+        for sv in solvers:
+            cmd = {'z3-new': ['z3-new', '-T:%d' % timeout_s, f.name], 'z3': ['/usr/bin/z3', '-T:%d' % timeout_s, f.name],
+                   'cvc5': ['cvc5', '--lang', 'smt2', '--tlimit=%d' % (timeout_s * 1000), f.name]}[sv]
+            try:
+                o = subprocess.run(cmd, capture_output=True, text=True, timeout=timeout_s + 30)
+                out = (o.stdout or '').strip().splitlines()
+                if any(l.startswith('(error') for l in out):
+                    res[sv] = 'error: ' + [l for l in out if l.startswith('(error')][0][:120]
+                elif out and out[0] in ('sat', 'unsat', 'unknown'):
+                    res[sv] = out[0]
+                elif 'timeout' in (o.stdout + o.stderr).lower() or 'interrupted' in (o.stdout + o.stderr).lower():
+                    res[sv] = 'timeout'
+                else:
+                    res[sv] = 'error: ' + (o.stdout + o.stderr).strip()[:120]
+            except subprocess.TimeoutExpired:
+                res[sv] = 'timeout'
+            except FileNotFoundError:
+                res[sv] = 'error: not installed'
+    finally:
+        os.unlink(f.name)
+    definite = [v for v in res.values() if v in ('sat', 'unsat')]
+    agree = None
+    if definite:
+        agree = all(v == expect for v in definite)
+    return {'expect': expect, 'results': res, 'agree': agree, 'smt2_bytes': len(txt)}
